@@ -65,7 +65,9 @@ var convs = []string{"d", "i", "o", "x", "X", "u", "c", "s", "e", "E", "f", "g",
 
 var intVals = []float64{0, 1, -1, 7, 42, -42, 255, 256, 65535, 2147483647, -2147483648, 2147483648, 4294967296, 9007199254740992, -9007199254740992, 9223372036854774784, -9223372036854775808, 1000000, 123456789}
 var fracVals = []float64{0.5, -0.5, 1.9, -1.9, 2.5, 3.14159265358979, 0.1, 1e-7, 1.5e-10, 123456.789, 1e15, 1e16, 1e17, 1e21, 1e100, 1e300, 5e-324, 2.2250738585072014e-308, 0.000123456, 99999.95, 999999.5, 1234567.891, -0.0001, 100, 1e5, 1e6, 123456, 1234567, 0.30000000000000004}
-var strVals = []string{"", "abc", "hello world", "42", "-3.7", "12abc", " 5", "é", "日本語", "aé", "\xff\xfe", "a\tb", "%d", "1e3", "+7", ".5", "x"}
+var strVals = []string{"", "abc", "hello world", "42", "-3.7", "12abc", " 5", "é", "日本語", "aé", "\xff\xfe", "a\tb", "%d", "1e3", "+7", ".5", "x",
+	// integer-looking text beyond 2^53: the AWK way is text -> double -> truncation, not text -> integer
+	"9007199254740993", "-9007199254740993", "123456789012345678", "4611686018427387905", " 9007199254740993", "9007199254740993.7", "+18014398509481985", "1152921504606846977x"}
 
 func genArg(t *rapid.T, conv string) Arg {
 	intConv := strings.Contains("dioxXu", conv)
@@ -99,7 +101,7 @@ func genArg(t *rapid.T, conv string) Arg {
 	case k < 18:
 		return Arg{Kind: "str", Str: h.Str(rapid.SampledFrom(strVals).Draw(t, "str"))}
 	default:
-		return Arg{Kind: "field", Str: h.Str(rapid.SampledFrom([]string{"42", "-3.7", "abc", "1e3", "0", "007", "3.0", "12abc"}).Draw(t, "field"))}
+		return Arg{Kind: "field", Str: h.Str(rapid.SampledFrom([]string{"42", "-3.7", "abc", "1e3", "0", "007", "3.0", "12abc", "9007199254740993", "-4611686018427387905", "123456789012345678"}).Draw(t, "field"))}
 	}
 }
 
